@@ -10,7 +10,23 @@ import (
 
 type c11Op struct {
 	code int
-	args []int64
+	args []int64 // for code 19: bm, then (kind p a dst) per request
+}
+
+func c11BatchOp(reqs []*c11BReq, bm int) c11Op {
+	a := []int64{int64(bm)}
+	for _, r := range reqs {
+		a = append(a, int64(r.kind), int64(r.p), int64(r.a), int64(r.dst))
+	}
+	return c11Op{19, a}
+}
+
+func (o c11Op) batchReqs() ([]*c11BReq, int) {
+	var reqs []*c11BReq
+	for i := 1; i+3 < len(o.args); i += 4 {
+		reqs = append(reqs, &c11BReq{kind: int(o.args[i]), p: int(o.args[i+1]), a: int(o.args[i+2]), dst: int(o.args[i+3])})
+	}
+	return reqs, int(o.args[0])
 }
 
 var c11NArgs = map[int]int{10: 2, 11: 2, 12: 4, 13: 7, 14: 3, 15: 2, 16: 2, 17: 1, 18: 0}
